@@ -6,12 +6,14 @@
 #![allow(clippy::type_complexity)]
 #![allow(dead_code)]
 
+mod baton;
 mod common;
 mod metaops;
 mod monitors;
 mod progs;
 mod shadow_check;
 mod shadowvm;
+mod unitvm;
 mod props;
 mod seqx;
 mod vm;
